@@ -52,6 +52,12 @@ def run(tier):
             continue
         vals = roundtrip.gen_values(F, t, overrides=OVERRIDES)
         adt = F.adts[t]
+        # free-text payloads may be empty: add each multi-field variant once more with its LAST string payload empty
+        extra = []
+        for v in vals:
+            if v[0] == "enum" and len(v[2]) >= 2 and v[2][-1][0] in ("sstr", "str"):
+                extra.append(("enum", v[1], tuple(v[2][:-1]) + (symstr.lit(""),)))
+        vals = list(vals) + [e for e in extra if e not in vals]
         pure_enum = adt["kind"] == "Enum" and all(not v["fields"] for v in adt["variants"])
         for v in vals:
             name = "%s :: %s" % (t, show_value(v))
